@@ -10,6 +10,7 @@ import (
 	"strconv"
 	"strings"
 	"sync"
+	"time"
 
 	"verifharness/evid"
 	"verifharness/hx"
@@ -174,4 +175,36 @@ func countRefused(run *evid.Run, s hx.Step) {
 	if s.Op == "joinimpostor" {
 		run.Count("merges_offering_a_same_hash_look_alike_of_a_held_entry", 1)
 	}
+}
+
+// MemoryWatchdog: this sandbox has no memory limit, and a defect that makes the library build an unbounded
+// structure (a traversal over a cycle) would take the machine down before any verdict is written. When the live
+// heap of the process exceeds the limit the run is closed at once with a violation naming the cases in flight.
+// The limit is far above what any check needs on the unchanged tree (observed: < 3 GiB).
+func MemoryWatchdog(run *evid.Run, limitGiB int, finish func()) {
+	if v := envInt("VERIF_MEM_GIB", 0); v > 0 {
+		limitGiB = v
+	}
+	go func() {
+		var ms runtime.MemStats
+		for {
+			time.Sleep(250 * time.Millisecond)
+			runtime.ReadMemStats(&ms)
+			if ms.HeapAlloc < uint64(limitGiB)<<30 {
+				continue
+			}
+			var cases []string
+			caseOf.Range(func(k, v any) bool { cases = append(cases, fmt.Sprint(v)); return len(cases) < 64 })
+			dump := goroutineDump()
+			var lib []string
+			for _, g := range strings.Split(dump, "\n\n") {
+				if strings.Contains(g, "berty.tech/go-ipfs-log") && !strings.Contains(g, "mon.goroutineDump") && len(lib) < 8 {
+					lib = append(lib, clipStr(g, 1800))
+				}
+			}
+			run.Violate(run.Prop+"/memory-exhausted", det("limit_gib", limitGiB), map[string]any{"cases_in_flight": cases, "heap_alloc_bytes": ms.HeapAlloc, "library_goroutines": lib},
+				"the live heap of the check exceeded %d GiB while the library was running (an operation that builds an unbounded structure, e.g. a traversal that never ends); cases in flight: %v", limitGiB, cases)
+			finish()
+		}
+	}()
 }
